@@ -1,6 +1,7 @@
 package main
 
 import (
+	"unicode/utf8"
 	"fmt"
 	"math"
 	"strconv"
@@ -455,7 +456,13 @@ func randOpts(r *rng) string {
 const defaultOptsS = "64,64,2,0,0,0,0"
 
 func emitParse(o *out, op, id, opts, text string) {
-	o.op("%s %s %s %s %s", op, id, opts, hx(text), astOf(text))
+	ast := astOf(text)
+	if ast != "invalid" && !utf8.ValidString(text) {
+		// Lean strings are UTF-8: a document with raw invalid bytes inside a JSON string cannot be
+		// carried to the model; the implementation is still run on it (outcome only)
+		ast = "nonutf8"
+	}
+	o.op("%s %s %s %s %s", op, id, opts, hx(text), ast)
 }
 
 // C06 / C07 / C05 / C17 document streams
